@@ -403,7 +403,7 @@ func c07Bin(op int, l, r ast.Node) ast.Node {
 	panic("c07Bin")
 }
 
-var c07UnNames = []string{"!", "-", ".attr", "has", "like", "is", "is-in", "isEmpty", "if-cond", "if-then", "if-else", "isIpv4", "decimal()", "set", "record"}
+var c07UnNames = []string{"!", "-", ".attr", "has", "like", "is", "is-in", "isEmpty", "if-cond", "if-then", "if-else", "isIpv4", "decimal()", "set", "record", "is-in-rhs"}
 
 func c07Un(op int, x ast.Node) ast.Node {
 	switch op {
@@ -437,6 +437,9 @@ func c07Un(op int, x ast.Node) ast.Node {
 		return ast.Set(x, ast.Long(1))
 	case 14:
 		return ast.Record(ast.Pairs{{Key: "k", Value: x}, {Key: "k 2", Value: ast.Long(1)}})
+	case 15:
+		// the operand of `in` after `is T` is an Add-level expression of its own
+		return ast.Principal().IsIn("T", x)
 	}
 	panic("c07Un")
 }
@@ -469,7 +472,7 @@ func c07Ops() (bin, un []int) {
 		return
 	}
 	// one or two representatives per precedence level
-	return []int{0, 1, 2, 4, 8, 9, 10, 11, 12}, []int{0, 1, 2, 3, 5, 6, 7, 8, 10, 12, 13}
+	return []int{0, 1, 2, 4, 8, 9, 10, 11, 12}, []int{0, 1, 2, 3, 5, 6, 7, 8, 10, 12, 13, 15}
 }
 
 // c07Text joins the tokens with single spaces, except for one gap that is a
@@ -582,7 +585,7 @@ func VerifC07_Pairs() {
 func VerifC07_Triples() {
 	bin, un := c07Ops()
 	if !vrt.Thorough() {
-		bin, un = []int{0, 2, 4, 9, 11}, []int{0, 1, 5, 10}
+		bin, un = []int{0, 2, 4, 9, 11}, []int{0, 1, 5, 10, 15}
 	}
 	a, b, c, d := ast.Long(7), ast.Principal(), ast.Long(-5), ast.Context().Access("k")
 	pickB := func(l string) int { return bin[vrt.Choice(l, len(bin))] }
